@@ -116,10 +116,14 @@ RECURSIVE AncChain(_, _, _)
 AncChain(S, u, n) ==          \* <<u, parent(u), ...>> ; stops at a root or after n steps
   LET ps == Parents(S, u) IN
   IF n = 0 \/ ps = {} THEN <<u>> ELSE <<u>> \o AncChain(S, CHOOSE p \in ps : TRUE, n - 1)
+HasOwnOverride(S, u, x) ==
+  \E c \in DOMAIN S.ctx : /\ S.ctx[c].owner = u /\ S.ctx[c].st \in {"on", "off", "new"}
+                           /\ S.ctx[c].ty \in (IF x < 100 THEN {"override", "oapi"} ELSE {"attr"})
+                           /\ S.prog.ctxs[c].var = (IF x < 100 THEN x ELSE x - 100)
 ExpectedRead(S, u, x) ==
   LET chain == AncChain(S, u, Cardinality(Tasks(S)))
       \* contexts overriding x that are entered and not left, per task of the chain
-      isOv(c) == S.ctx[c].st \in {"on", "off", "new"} /\ S.ctx[c].ty = (IF x < 100 THEN "override" ELSE "attr")
+      isOv(c) == S.ctx[c].st \in {"on", "off", "new"} /\ S.ctx[c].ty \in (IF x < 100 THEN {"override", "oapi"} ELSE {"attr"})
                  /\ S.prog.ctxs[c].var = (IF x < 100 THEN x ELSE x - 100)
       ofTask(t) == {c \in DOMAIN S.ctx : S.ctx[c].owner = t /\ isOv(c)}
       firstWith == {i \in 1..Len(chain) : ofTask(chain[i]) # {}}
@@ -217,8 +221,13 @@ Step(S, e) ==
               IfBad((T.st = "waiting" /\ f \notin S.killed) => (IsX(e.v) /\ (e.v.n = 70000 \/ (e.v.n >= 90000 /\ e.v.n < 91000))), "C02.deliver") \cup
               (IF S.ref # <<>> THEN IfBad(e.v = S.ref[f], "C01.done") ELSE {}) \cup
               \* every context the task entered has been left, ending with a pause
-              IfBad(\A c \in DOMAIN S.ctx : S.ctx[c].owner = f /\ S.ctx[c].ty \notin {"nonasync", "cleanup"} /\ NoFaultyCtx(P)
+              IfBad(\A c \in DOMAIN S.ctx : S.ctx[c].owner = f /\ S.ctx[c].ty \notin {"nonasync", "cleanup", "oapi"} /\ NoFaultyCtx(P)
                                             => S.ctx[c].st = "closed", "C06.alt.end") \cup
+              \* ... and it fails it with AssertionError: a task completed while suspended inside a NonAsyncContext block
+              \* (the block was still open when the generator was closed) carries that assertion, nothing else
+              IfBad((T.st = "waiting" /\ f \notin S.killed /\ NoFaultyCtx(P) /\
+                     \E c \in DOMAIN S.ctx : S.ctx[c].owner = f /\ S.ctx[c].ty = "nonasync" /\ S.ctx[c].st = "closed_by_close")
+                    => e.v = VX(70000), "C06.nonasync.assert") \cup
               \* a NonAsyncContext fails the task only if it had to be suspended for a flush inside it
               IfBad((e.v = VX(70000) /\ \A g \in DOMAIN S.fut : S.fut[g].u # e.u) => (T.st = "waiting" /\ f \in Blocked(S) /\
                                         \* ... inside a NonAsyncContext block: one that was still open when the task was failed
@@ -340,7 +349,7 @@ Step(S, e) ==
     [] e.e = "Exit" ->
         IF e.a \notin DOMAIN S.ctx THEN [S |-> S, bad |-> {"H.unknown_ctx"}] ELSE
         LET C == S.ctx[e.a] IN
-        IF C.ty \in {"nonasync", "cleanup"}
+        IF C.ty \in {"nonasync", "cleanup", "oapi"}        \* no resume / pause observed for these: Enter ... Exit is all there is
         THEN [S |-> [S EXCEPT !.ctx[e.a].st = IF C.owner \in S.closing THEN "closed_by_close" ELSE "closed"], bad |-> {}]
         ELSE [S |-> [S EXCEPT !.ctx[e.a].st = IF C.st = "on" THEN "exiting" ELSE "exiting_off"],
               bad |-> IfBad(NoFaultyCtx(P) => C.st = "on", "C06.alt.exit")]
@@ -367,7 +376,9 @@ Step(S, e) ==
 
     [] e.e = "Read" ->
         [S |-> S,
-         bad |-> (IF UniqueChain(S, e.t, Cardinality(Tasks(S))) /\ NoFaultyCtx(P) /\ ~HasCtxType(P, "nonasync")
+         \* judged when the awaiting chain above the reader is unique - or when the reader itself has an override of that
+         \* variable open (then that one is the innermost, whoever awaits the reader)
+         bad |-> (IF (UniqueChain(S, e.t, Cardinality(Tasks(S))) \/ HasOwnOverride(S, e.t, e.a)) /\ NoFaultyCtx(P) /\ ~HasCtxType(P, "nonasync")
                      /\ \A z \in S.assigned : z[2] # e.a \/ (z[1] # e.t /\ z[1] \notin Range(AncChain(S, e.t, Cardinality(Tasks(S)))))
                   THEN IfBad(e.v = VC(ExpectedRead(S, e.t, e.a)), "C07.read") ELSE {}) \cup
                  CtxRunClauses(S, e.t)]
